@@ -82,7 +82,12 @@ def _generate_operator(ns, node):
             if s1 and not s2:
                 r2 = to_signed(r2)
         r = f"{r1} {operator} {r2}"
-        s = s1 or s2
+        if operator in ["<<<", ">>>"]:
+            s = s1    # A shift has the signedness of the shifted operand.
+        elif operator in ["==", "!=", "<", "<=", ">", ">="]:
+            s = False # A comparison is a 1-bit unsigned value.
+        else:
+            s = s1 or s2
 
     # Ternary Operator.
     if arity == OperatorType.TERNARY:
